@@ -437,10 +437,54 @@ func (m *Model) AsORMCall(ci ssa.CallInstruction) *ORMCall {
 	}
 	t := m.TableOfIface(cc.Value.Type())
 	if t == nil {
+		t = m.tableBehindLocalIface(cc)
+	}
+	if t == nil {
 		return nil
 	}
 	k := ormOpKind(cc.Method.Name())
 	return &ORMCall{Table: t, Method: cc.Method.Name(), Kind: k, Call: ci}
+}
+
+// tableBehindLocalIface: a call through a hand-written interface that a generated table interface
+// satisfies (type resolverInserter interface{ InsertReturningID(ctx, *api.Resolver) (uint64, error) })
+// is a call on that table. The table is identified by the row type in the method's signature when
+// several tables satisfy the interface; a read whose table stays ambiguous (Has(ctx, string)) is
+// left to the path explorer, which knows the dynamic table value.
+func (m *Model) tableBehindLocalIface(cc *ssa.CallCommon) *Table {
+	it, ok := cc.Value.Type().Underlying().(*types.Interface)
+	if !ok || it.NumMethods() == 0 || it.NumMethods() > 6 {
+		return nil
+	}
+	if ormOpKind(cc.Method.Name()) == "" {
+		return nil
+	}
+	var cands []*Table
+	for _, t := range m.Tables {
+		if t.Iface != nil && types.Implements(t.Iface, it) {
+			cands = append(cands, t)
+		}
+	}
+	if len(cands) == 0 {
+		return nil
+	}
+	if len(cands) == 1 {
+		return cands[0]
+	}
+	sig, _ := cc.Method.Type().(*types.Signature)
+	if sig != nil {
+		for i := 0; i < sig.Params().Len(); i++ {
+			if t := m.TableOfRow(sig.Params().At(i).Type()); t != nil {
+				return t
+			}
+		}
+		for i := 0; i < sig.Results().Len(); i++ {
+			if t := m.TableOfRow(sig.Results().At(i).Type()); t != nil {
+				return t
+			}
+		}
+	}
+	return nil
 }
 
 // BankCall recognises invoke-mode calls on an interface named BankKeeper
@@ -450,14 +494,43 @@ func AsBankCall(ci ssa.CallInstruction) string {
 	if !cc.IsInvoke() {
 		return ""
 	}
-	n, ok := types.Unalias(cc.Value.Type()).(*types.Named)
-	if !ok || n.Obj().Pkg() == nil || !isRepoPkgPath(n.Obj().Pkg().Path()) {
+	if n, ok := types.Unalias(cc.Value.Type()).(*types.Named); ok && n.Obj().Pkg() != nil && isRepoPkgPath(n.Obj().Pkg().Path()) && n.Obj().Name() == "BankKeeper" {
+		return cc.Method.Name()
+	}
+	// a hand-written narrow interface over the bank keeper (type coinSettler interface{ SendCoins(…); BurnCoins(…) }):
+	// recognised by method name plus the sdk coin types in the signature
+	if _, isIface := cc.Value.Type().Underlying().(*types.Interface); !isIface {
 		return ""
 	}
-	if n.Obj().Name() != "BankKeeper" {
+	name := cc.Method.Name()
+	switch name {
+	case "MintCoins", "BurnCoins", "SendCoins", "SendCoinsFromModuleToAccount", "SendCoinsFromAccountToModule", "SendCoinsFromModuleToModule", "GetBalance", "GetSupply", "HasBalance", "SpendableCoins", "GetAllBalances", "SetDenomMetaData":
+	default:
 		return ""
 	}
-	return cc.Method.Name()
+	sig, _ := cc.Method.Type().(*types.Signature)
+	if sig == nil {
+		return ""
+	}
+	hasCoin := false
+	chk := func(t types.Type) {
+		if n := namedOf(t); n != nil && n.Obj().Pkg() != nil && strings.HasSuffix(n.Obj().Pkg().Path(), "cosmos-sdk/types") && (n.Obj().Name() == "Coins" || n.Obj().Name() == "Coin") {
+			hasCoin = true
+		}
+		if n := namedOf(t); n != nil && n.Obj().Name() == "Metadata" {
+			hasCoin = true
+		}
+	}
+	for i := 0; i < sig.Params().Len(); i++ {
+		chk(sig.Params().At(i).Type())
+	}
+	for i := 0; i < sig.Results().Len(); i++ {
+		chk(sig.Results().At(i).Type())
+	}
+	if !hasCoin {
+		return ""
+	}
+	return name
 }
 
 func isBankMutator(name string) bool {
